@@ -6,7 +6,7 @@ res = json.load(open(ROOT + '/seeded/RESULTS.json'))
 rows = []
 for d in sorted(os.listdir(ROOT + '/seeded')):
     p = ROOT + '/seeded/' + d
-    if not os.path.isdir(p):
+    if not os.path.isdir(p) or d.startswith('_'):
         continue
     prop = d.split('-')[0]
     r = res.get('%s@%s' % (d, prop))
